@@ -66,6 +66,18 @@ theorem layerB_self_reference (E : Elem α) :
     Refines (fun s => copy E s .self) (fun l => l) :=
   ⟨fun s l k kk j x h hk hx => insert_spec s l k kk (.own j) x h hk hx, append_self_refines E, copy_self_refines E⟩
 
+/-- Pointer arguments into the same array — `a.append(a.data()+j, k)` (code after fbcbf17: offset taken before
+`resize`, pointer rebased after it) and `a.copy(a.data()+j, k)` (code after dd01035: elements moved down, then
+`resize`) for every in-range `j`, `k` — and `remove(i, c)` with ANY `i`, `c` (code after 0854fc0; the model's range
+test is over the naturals, so a count reaching beyond the end, up to `INT_MAX`, removes nothing). -/
+theorem layerB_pointer_self_reference (E : Elem α) (i j k c : Nat) :
+    Refines (fun s => let j' := j % (s.n + 1); appendOwn E s j' (k % (s.n - j' + 1)))
+      (fun l : List α => let j' := j % (l.length + 1); l ++ (l.drop j').take (k % (l.length - j' + 1))) ∧
+    Refines (fun s => let j' := j % (s.n + 1); copyOwn E s j' (k % (s.n - j' + 1)))
+      (fun l : List α => let j' := j % (l.length + 1); (l.drop j').take (k % (l.length - j' + 1))) ∧
+    Refines (fun s => remove E s i c) (fun l : List α => if i + c > l.length then l else remAt l i c) :=
+  ⟨refines_appown E j k, refines_copyown E j k, refines_remx E i c⟩
+
 /-- the hypotheses of `layerB_refines` are satisfiable: a block at capacity (the growth path of `insert`) -/
 example : Rep (⟨[some 1, some 2, some 3], 3, 1, 3, false⟩ : BS Nat) [1, 2, 3] 0 := ⟨rfl, rfl, by decide⟩
 
